@@ -53,7 +53,7 @@ let res_match r impl = match r with
 let () =
   let env = ref { e_excl = []; e_lfnames = [] } and w = ref init_world and seq = ref "" and cls = ref "" in
   let skipping = ref false and opi = ref 0 in
-  let nx = ref 0 in
+  let nx = ref 0 and dom = ref 0 in
   let nops = ref 0 and nseq = ref 0 and mism = ref 0 and pfail = ref 0 and states = ref 0 in
   let counts = Hashtbl.create 64 in
   let bump k = Hashtbl.replace counts k (1 + (try Hashtbl.find counts k with Not_found -> 0)) in
@@ -76,9 +76,6 @@ let () =
         let (args, after) = split [] rest in
         let a n = ios (List.nth args n) in
         let impl_res, impl_states = (match after with r :: st -> (r, st) | [] -> ("?", [])) in
-        if impl_res = "panic" then begin
-          skipping := true; incr mism;
-          if !mism <= 30 then Printf.printf "MISMATCH\t%s\t%d\t%s\t%s\n" !seq !opi "implementation panicked" line end else
         let o = (match k with
           | "V" -> ONewVars (zi (a 0), zi (a 1))
           | "N" -> ONew (zi (a 0), nati (a 1), zi (a 2))
@@ -101,7 +98,12 @@ let () =
           skipping := true;
           if kind = "PROPFAIL" then begin incr pfail; if !pfail <= 30 then Printf.printf "PROPFAIL\tstep_bounds\t%s\t%d\t%s\t%s\n" !seq !opi detail line end
           else begin incr mism; if !mism <= 30 then Printf.printf "MISMATCH\t%s\t%d\t%s\t%s\n" !seq !opi detail line end in
-        if r = RBad && k = "B" && (rcls = "ok" || rcls = "killed") then
+        if impl_res = "panic" then begin
+          (* outside the model's domain (RBad) the code is expected to panic: agreement; anywhere else it is a mismatch *)
+          skipping := true;
+          if r = RBad then incr dom
+          else begin incr mism; if !mism <= 30 then Printf.printf "MISMATCH\t%s\t%d\t%s\t%s\n" !seq !opi ("implementation panicked, model=" ^ res_str r) line end
+        end else if r = RBad && k = "B" && (rcls = "ok" || rcls = "killed") then
           fail "PROPFAIL" "sleep chosen by the implementation is not admissible for the kind's state (or op precondition)"
         else if not (res_match r impl_res) then fail "MISMATCH" ("result model=" ^ res_str r)
         else begin
@@ -116,5 +118,5 @@ let () =
           cmp impl_states
         end
     | _ -> ());
-  Printf.printf "STATS\tseqs=%d\tops=%d\tstates=%d\tmismatches=%d\tpropfails=%d\texpo=%d\n" !nseq !nops !states !mism !pfail !nx;
+  Printf.printf "STATS\tseqs=%d\tops=%d\tstates=%d\tmismatches=%d\tpropfails=%d\texpo=%d\tdomain_panics=%d\n" !nseq !nops !states !mism !pfail !nx !dom;
   Hashtbl.iter (fun k v -> Printf.printf "COUNT\t%s\t%d\n" k v) counts
